@@ -44,6 +44,15 @@ func extraTypes() []*lat.Spec {
 		lat.Pat("(?i)^yes$", "^no$"), lat.Pat("^no$", "(?i)^yes$"), lat.Pat("(?i)^y", "n$", "^maybe$"), lat.Pat("^maybe$", "(?i)^y", "n$"),
 		lat.Pat("(?s)^a.b$", "^c.d$"), lat.Pat("^c.d$", "(?s)^a.b$"), lat.Pat("(?i:^yes$)", "^no$"), lat.Pat("(?m)^a$", "^b$"), lat.Pat("(?U)^a+", "^b+$"),
 		lat.Pat("^yes$|^no$"), lat.Pat("^(yes", "no)$"),
+		// sizes count characters: characters of 1, 2, 3 and 4 bytes around every bound
+		lat.StrSz(0, 3), lat.StrSz(0, 5), lat.StrSz(3, 3), lat.StrSz(1, 2), lat.StrSz(4, 6), lat.StrSz(0, 1),
+		// Enums longer than any small-size fast path (9..14 values), with and without the case-insensitivity flag,
+		// declared in lower case, with capitals, and mixed
+		lat.Enum(true, "present", "Absent", "latest", "installed", "purged", "held", "true", "false", "running"),
+		lat.Enum(false, "present", "Absent", "latest", "installed", "purged", "held", "true", "false", "running"),
+		lat.Enum(true, "a", "b", "c", "d", "e", "f", "g", "h", "i", "j", "k", "l", "m", "n"),
+		lat.Enum(true, "A", "B", "C", "D", "E", "F", "G", "H", "I", "J"), lat.Enum(false, "A", "B", "C", "D", "E", "F", "G", "H", "I", "J"),
+		lat.Enum(true, "One", "Two", "Three", "Four", "Five", "Six", "Seven", "Eight"), lat.Enum(true, "One", "Two", "Three", "Four", "Five", "Six", "Seven", "Eight", "Nine"),
 		lat.Tup(lat.Int(0, 5), lat.A("String")), lat.TupSz(1, 4, lat.Int(0, 5), lat.A("String")), lat.TupSz(0, 1, lat.Int(0, 5), lat.A("String")),
 		lat.Struct(lat.Member{Name: "a", Kind: 0, T: lat.Int(0, 5)}, lat.Member{Name: "b", Kind: 1, T: lat.A("String")}),
 		lat.Struct(lat.Member{Name: "a", Kind: 0, T: lat.W("Optional", lat.Int(0, 5))}),
@@ -65,6 +74,10 @@ func extraValues() []*lat.VSpec {
 		lat.VS(""), lat.VS("é"), lat.VS("éé"), lat.VS("aé€"), lat.VS("A"), lat.VS("ABC"), lat.VS("É"), lat.VS("true"), lat.VS("aaa"), lat.VS("bb"),
 		lat.VS("yes"), lat.VS("YES"), lat.VS("no"), lat.VS("NO"), lat.VS("maybe"), lat.VS("MAYBE"), lat.VS("yN"), lat.VS("Yn"), lat.VS("a\nb"), lat.VS("c\nd"), lat.VS("cxd"),
 		lat.VS("x\na"), lat.VS("x\nb"), lat.VS("aab"), lat.VS("(yes"), lat.VS("no)"),
+		lat.VS("\U0001F600"), lat.VS("\U0001F600\U0001F600"), lat.VS("\U0001F600\U0001F600\U0001F600"), lat.VS("a\U0001F600\U0001F600\U0001F600"),
+		lat.VS("\u00e9\U0001F600\U0001F600\U0001F600\U0001F600"), lat.VS("\U0001F600\U0001F600\U0001F600\U0001F600"), lat.VS("\u20ac\u20ac\u20ac"), lat.VS("\u20ac\u20ac\u20ac\u20ac"),
+		lat.VS("\U00010000\U00010000\U00010000\U00010000\U00010000\U00010000"), lat.VS("\U00010000\U00010000\U00010000\U00010000\U00010000\U00010000\U00010000"),
+		lat.VS("Absent"), lat.VS("absent"), lat.VS("ABSENT"), lat.VS("Running"), lat.VS("running"), lat.VS("nine"), lat.VS("Nine"), lat.VS("NINE"), lat.VS("eight"), lat.VS("j"), lat.VS("J"), lat.VS("n"), lat.VS("N"), lat.VS("o"),
 		lat.VA(lat.VI(0), lat.VS("x")), lat.VA(lat.VI(0), lat.VS("x"), lat.VS("y")), lat.VA(lat.VI(0), lat.VS("x"), lat.VI(1)), lat.VA(lat.VI(0)), lat.VA(lat.VI(9)), lat.VA(),
 		lat.VH(lat.VS("a"), lat.VI(1)), lat.VH(lat.VS("a"), lat.VI(1), lat.VS("b"), lat.VS("x")), lat.VH(lat.VS("b"), lat.VS("x")), lat.VH(lat.VS("a"), lat.VU()),
 		lat.VH(lat.VS("a"), lat.VI(1), lat.VS("c"), lat.VI(1)), lat.VH(), lat.VH(lat.VI(1), lat.VI(1)), lat.VH(lat.VS("a"), lat.VI(7)),
